@@ -514,10 +514,87 @@ def term_getitem(it, base, idx, env, node):
         if fname(b) != "assign" and T.is_str_symbol(key):
             return op("item", b, key)
     if f == "store":
-        # read of just-written element
-        if base.args[1] == to_term(idx):
-            return base.args[2]
+        r = read_store_chain(base, to_term(idx))
+        if r is not None:
+            return r
+    if isinstance(base, (sp.Mul, sp.Add)) and _concrete_index(to_term(idx)):
+        parts = []
+        okd = True
+        for a in base.args:
+            if is_scalar_term(a):
+                parts.append(a)
+            elif fname(a) in ("store", "tabulate", "zeros", "array") or isinstance(a, (sp.Mul, sp.Add)):
+                parts.append(term_getitem(it, a, idx, env, node))
+            else:
+                okd = False
+                break
+        if okd:
+            return base.func(*parts)
     return op("item", base, to_term(idx))
+
+
+def _concrete_index(ti) -> bool:
+    full = op("slc", NONE_T, NONE_T, NONE_T)
+    if ti.is_number:
+        return True
+    if isinstance(ti, sp.Tuple):
+        return all(x.is_number or x == full for x in ti.args)
+    return False
+
+
+def is_scalar_term(t) -> bool:
+    if t.is_number:
+        return True
+    f = fname(t)
+    if f in ("sum", "min", "max", "nansum", "mean") and len(t.args) == 2 and t.args[1] == NONE_T:
+        return True
+    if f in ("norm", "len"):
+        return True
+    if isinstance(t, (sp.Mul, sp.Add)):
+        return all(is_scalar_term(a) for a in t.args)
+    if isinstance(t, sp.Pow):
+        return is_scalar_term(t.args[0]) and is_scalar_term(t.args[1])
+    return False
+
+
+def _index_relation(i, j):
+    """'same' | 'different' | None (undecided) for two index terms"""
+    if i == j:
+        return "same"
+    full = op("slc", NONE_T, NONE_T, NONE_T)
+    if i.is_number and j.is_number:
+        return "different"
+    if isinstance(i, sp.Tuple) and isinstance(j, sp.Tuple) and len(i.args) == len(j.args):
+        rel = "same"
+        for a, b in zip(i.args, j.args):
+            if a == b:
+                continue
+            if a.is_number and b.is_number:
+                return "different"
+            return None
+        return rel
+    return None
+
+
+def read_store_chain(base, ti):
+    """element ti of store(store(...)): the latest store to that index wins; stores to provably different
+    indices are skipped; a full-slice store of a scalar defines every element"""
+    full = op("slc", NONE_T, NONE_T, NONE_T)
+    cur = base
+    while fname(cur) == "store":
+        b, i, v = cur.args
+        rel = _index_relation(i, ti)
+        if rel == "same":
+            return v
+        if rel == "different":
+            cur = b
+            continue
+        if (i == full or (isinstance(i, sp.Tuple) and all(x == full for x in i.args))) and (v.is_number or is_scalar_term(v)):
+            return v
+        return None
+    if fname(cur) == "zeros" or cur == 0:
+        return sp.Integer(0)
+    return None
 
 
 def _flatten_tab(t):
